@@ -2070,6 +2070,14 @@ class IMAPClientCommand:
             #
             if mbox_name.lower() == "inbox":
                 return "inbox"
+
+            # .. and the mailboxes below it are below it however the client
+            # spells its name: `INBOX/lists` is `inbox/lists`, not a mailbox
+            # in some other folder `INBOX` next to the inbox.
+            #
+            top, delimiter, rest = mbox_name.partition("/")
+            if delimiter and top.lower() == "inbox":
+                mbox_name = "inbox" + delimiter + rest
         return mbox_name
 
     #######################################################################
